@@ -120,38 +120,33 @@ Print Assumptions C11_pipeline.
 
 (* ---- what happens outside [admissible] ----
    parser o printer is the function [psem] for EVERY expression (errors
-   included, in the order the parser meets them) ... *)
+   included, in the order the parser meets them); [psem] is GeomSemantics on
+   the abstract expression ... *)
 Theorem C11_parse_psem : forall (e : mexpr) (ws : written) (trail : nat),
   wf_written ws = true -> tokens_written ws = toks 0 e -> get_ast (render ws trail) = psem e.
 Proof. exact get_ast_render_psem. Qed.
 Print Assumptions C11_parse_psem.
 
+Theorem C11_psem_is_sem : forall e : mexpr, psem e = sem e.
+Proof. exact psem_eq_sem. Qed.
+Print Assumptions C11_psem_is_sem.
+
 (* ... so the accepted expressions are exactly those with no cell complement
-   below a #( ) and no complement right after a colon ... *)
+   below a #( ) (since /repo d73f13e a complement may follow ':' directly) ... *)
 Theorem C11_accepted_iff : forall (e : mexpr) (ws : written) (trail : nat),
   wf_written ws = true -> tokens_written ws = toks 0 e ->
-  ((exists a, get_ast (render ws trail) = Ok a) <->
-   no_cell_under_not e && no_colon_hash e = true).
+  ((exists a, get_ast (render ws trail) = Ok a) <-> no_cell_under_not e = true).
 Proof. exact accepted_written_iff. Qed.
 Print Assumptions C11_accepted_iff.
 
-(* ... and each defect class, alone, gives its own exception: every well-formed
-   expression with a #n below #( ) raises AttributeError, every one with a
-   complement right after a colon is a parse error (known findings
-   nested_complement_of_cellref, complement_after_colon) *)
+(* ... and every well-formed expression with a #n below #( ), in every layout,
+   raises AttributeError (known finding nested_complement_of_cellref) *)
 Theorem C11_nested_rejected : forall (e : mexpr) (ws : written) (trail : nat),
   wf_written ws = true -> tokens_written ws = toks 0 e ->
-  no_colon_hash e = true -> no_cell_under_not e = false ->
+  no_cell_under_not e = false ->
   get_ast (render ws trail) = Err EAttribute.
 Proof. exact nested_rejected_written. Qed.
 Print Assumptions C11_nested_rejected.
-
-Theorem C11_colon_hash_rejected : forall (e : mexpr) (ws : written) (trail : nat),
-  wf_written ws = true -> tokens_written ws = toks 0 e ->
-  no_cell_under_not e = true -> no_colon_hash e = false ->
-  get_ast (render ws trail) = Err EParse.
-Proof. exact colon_hash_rejected_written. Qed.
-Print Assumptions C11_colon_hash_rejected.
 
 (* ---- soundness of acceptance ----
    whatever token sequence the parser accepts is the canonical token sequence
@@ -185,7 +180,7 @@ Print Assumptions C11_get_ast_sound.
 Theorem C11_get_ast_accepts_iff : forall s : String.string,
   (exists a, get_ast s = Ok a) <->
   (exists e ws trail, render ws trail = s /\ wf_written ws = true /\
-     tokens_written ws = toks 0 e /\ no_cell_under_not e && no_colon_hash e = true).
+     tokens_written ws = toks 0 e /\ no_cell_under_not e = true).
 Proof. exact get_ast_accepts_iff. Qed.
 Print Assumptions C11_get_ast_accepts_iff.
 
@@ -216,19 +211,24 @@ Theorem C11_card_geometry : forall name g1 mat rho g3 (e : mexpr) w r trail opts
 Proof. exact card_geometry. Qed.
 Print Assumptions C11_card_geometry.
 
-(* [admissible] excludes exactly two classes of well-formed MCNP expressions
-   that the code rejects (genuine defects, known findings): *)
+(* [admissible] excludes exactly one class of well-formed MCNP expressions
+   that the code rejects (genuine defect, known finding): *)
 Theorem C11_nested_refuted :
-  exists e s, nonzero e = true /\ no_colon_hash e = true /\
-    tokens_of s = toks 0 e /\ get_ast s = Err EAttribute.
+  exists e s, nonzero e = true /\ tokens_of s = toks 0 e /\ get_ast s = Err EAttribute.
 Proof. exact nested_refuted. Qed.
 Print Assumptions C11_nested_refuted.
 
-Theorem C11_colon_hash_refuted :
-  exists e s, nonzero e = true /\ no_cell_under_not e = true /\
-    tokens_of s = toks 0 e /\ get_ast s = Err EParse.
-Proof. exact colon_hash_refuted. Qed.
-Print Assumptions C11_colon_hash_refuted.
+(* the repaired case: a complement directly after the colon, with or without
+   blanks, is an admissible expression inside the layout family *)
+Example C11_example_colon_complement :
+  let e := MOr (MLit 1 None) (MAnd (MNotCell 2) (MNot (MLit 3 None))) in
+  let ws := [(0, WLit false false "1" None); (0, WColon); (0, WHashN 0 "2"); (0, WHashP 0);
+             (0, WLit false false "3" None); (0, WRP)]%string in
+  admissible e = true /\ wf_written ws = true /\ tokens_written ws = toks 0 e /\
+  render ws 0 = "1:#2#(3)"%string /\
+  get_ast "1:#2#(3)"%string = Ok (AOr (ASurf 1 None) (AAnd (ACompl 2) (ASurf (-3) None))) /\
+  get_ast "1 : # 2 #( 3 )"%string = get_ast "1:#2#(3)"%string.
+Proof. cbv zeta. repeat split; vm_compute; reflexivity. Qed.
 
 (* non-vacuity: a concrete expression with union, intersection, both kinds of
    complement, a facet; it is admissible and its text lexes to its tokens *)
